@@ -487,8 +487,11 @@ class InstanceState(interfaces.InspectionAttrInfo, Generic[_O]):
 
             state.session_id = None
 
-            if to_transient and state.key:
-                del state.key
+            if to_transient:
+                if state.key:
+                    del state.key
+                if deleted:
+                    del state._deleted
             if persistent:
                 if to_transient:
                     if persistent_to_transient is not None:
